@@ -1070,6 +1070,45 @@ def teq_normal(toks):
     return out
 
 
+def rval_of(v):
+    """what CPython's parser makes of a printed value, in the reader's vocabulary (Spec/Reader.lean): numbers by their literal text"""
+    def cps(x):
+        return ' '.join(str(ord(c)) for c in x)
+    if v is None or v is True or v is False:
+        return '(kw %s)' % cps(repr(v))
+    if v is Ellipsis:
+        return '(kw 46 46 46)'
+    if type(v) is int:
+        return '(num %s)' % cps(repr(v))
+    if type(v) is float:
+        if v != v:
+            return '(fs %s)' % cps('nan')
+        if v in (float('inf'), float('-inf')):
+            return '(fs %s)' % cps('inf' if v > 0 else '-inf')
+        return '(num %s)' % cps(repr(v))
+    if type(v) is str:
+        return ('(str 0 %s)' % cps(v)).replace(' )', ')')
+    if type(v) is bytes:
+        return ('(str 1 %s)' % ' '.join(str(b) for b in v)).replace(' )', ')')
+    if type(v) in (list, tuple):
+        return '(%s%s)' % ('list' if type(v) is list else 'tuple', ''.join(' ' + rval_of(x) for x in v))
+    if type(v) in (set, frozenset):
+        return '(%s%s)' % ('set' if type(v) is set else 'fset', ''.join(' ' + r for r in sorted(rval_of(x) for x in v)))
+    if type(v) is dict:
+        return '(dict%s)' % ''.join(' (%s %s)' % (rval_of(k), rval_of(x)) for k, x in v.items())
+    return '(other)'
+
+
+def sort_sets_sx(t):
+    """the reader keeps the printed order of set elements; CPython's set has its own: compare them as multisets"""
+    if isinstance(t, list):
+        t = [sort_sets_sx(x) for x in t]
+        if t and t[0] in ('set', 'fset'):
+            t = [t[0]] + sorted(t[1:], key=repr)
+        return t
+    return t
+
+
 def token_chunk(args):
     cases = args
     drv = _driver()
@@ -1105,6 +1144,18 @@ def token_chunk(args):
                 mism.append({'kind': 'ctoks(model stream) differs from CPython tokenize of the implementation text', 'value': repr(value)[:300],
                              'value_sx': sx[:1500], 'settings': st, 'impl': repr(a)[:800], 'model': repr(b)[:800]})
                 break
+            # the reader (Spec/Reader.lean) on the canonical tokens against CPython's parser on the implementation's text
+            if depth is None and (msl is None or msl >= 1000) and len(r) > 2 and len(mism) < 3:
+                try:
+                    got = eval('(' + text + '\n)', {'float': float, 'set': set, 'frozenset': frozenset})
+                    want = sort_sets_sx(sx_parse(rval_of(got)))
+                except Exception:
+                    want = None
+                have = r[2][1] if r[2][1] == 'none' else sort_sets_sx(r[2][1])
+                if want is not None and '(other)' not in repr(want) and have != want:
+                    mism.append({'kind': 'reader(canonical tokens) differs from CPython eval of the implementation text', 'value': repr(value)[:300],
+                                 'value_sx': sx[:1500], 'settings': st, 'impl': repr(want)[:800], 'model': repr(have)[:800]})
+                    break
             if a != c and len(fails) < 3:
                 fails.append({'kind': 'tokens-not-canonical', 'value': repr(value)[:300], 'settings': st, 'text': text[:600],
                               'tokens': repr(a)[:600], 'canonical': repr(c)[:600]})
